@@ -23,7 +23,11 @@ RULE = ("the real qmail-local.c main() (ASan+UBSan build of the working tree, ru
         "instruction semantics, exit-code classes, forward last) plus the documented search order, confinement of every name opened or "
         "stat'ed, owner names, $DEFAULT, loop rule in both directions, one-line header fields, and a post-run scan of the home directory "
         "(every new or changed file must be explained by an observed delivery event; none when no file delivery is documented), all "
-        "evaluated on the implementation's output; "
+        "evaluated on the implementation's output; the whole environment (`environ`) of the main process after the run and of the first real "
+        "command child at its execv(/bin/sh), for inherited environments from a 10-entry pool (incl. a stale DEFAULT), 3 user names and scripted "
+        "clocks 0..year 9999 (46 extensions x 9 hosts x 3 sender/owner layouts with a real command, plus every other case), compared variable by "
+        "variable with Nq.LocalEnv.commandEnv and judged by Nq.LocalEnvSpec.check (qmail-command(8) variable by variable) and uflineOracle "
+        "(Gregorian date of the clock); "
         "non-trivial = distinct case in which an instruction was acted on or a failure was reported")
 
 
@@ -164,6 +168,7 @@ def main():
         "qmail-queue is replaced by a recorder (qmail.o excluded): envelope sender, recipients and body of the forwarded copy are captured; its verdict is scripted",
         "mbox/maildir file contents are C12's subject; here only the fact and order of the delivery attempts and their success are observed",
         "arguments are C strings (no NUL); conf-patrn is read from the tree (002)",
+        "the clock is scripted by redefining time() inside qmail-local.c (now.h calls it); inherited environments have no two entries of one name and every entry has the form NAME=value; the order of environ is not compared (env.c moves the last entry into a freed slot)",
     ]
     hint = "./check C13 --replay <file with one line '<doit> <in>' built from failing_case.doit and failing_case.in; blob format in harness/c13_local.c>"
     standard_verdict(c, ok, stats, disagree, oracle, errors, "Nq.Local.run (lean/Nq/Local.lean) vs qmail-local.c main()", neighbourhood, replay_hint=hint)
